@@ -326,11 +326,18 @@ pub struct ScriptSub {
     pub read_from: Option<std::sync::Weak<StoreImpl<St, Act>>>,
     /// forward every notification as a new action (id + offset) to another store (C19)
     pub forward_to: Option<(std::sync::Weak<StoreImpl<St, Act>>, u32)>,
+    /// gives subscriber objects an allocation size nothing else in an execution uses, so that
+    /// the allocator (per-thread LIFO free lists) hands the address of a freed subscriber to the
+    /// next subscriber created on that thread: identity-by-address mistakes become reachable
+    pub pad: SubPad,
 }
+
+#[derive(Default)]
+pub struct SubPad([u64; 29]);
 
 impl ScriptSub {
     pub fn new(id: u32) -> ScriptSub {
-        ScriptSub { id, gate: None, read_from: None, forward_to: None }
+        ScriptSub { id, gate: None, read_from: None, forward_to: None, pad: SubPad::default() }
     }
 }
 
